@@ -281,5 +281,6 @@ def run(ck: Check, repo: Repo) -> None:
     r4 = ck.rule("R4", "post-render check (shared with C07-R1)")
     c07.postcondition(ck, repo, r4)
     rule_no_mutation(ck, repo)
-    from . import c20
+    from . import c20, c10
     c20.rule_merge(ck, repo, "R6")
+    c10.rule_finder_predicate(ck, repo, "R7")  # an existing header that is not found is not merged either
